@@ -2,6 +2,7 @@
    Only statements closed by [exact]; proofs are in Proofs/. *)
 From Coq Require Import ZArith List Bool.
 From Sv Require Import PyTime Timer Job Sched Occur TimerProofs JobProofs CyclicProofs.
+From Coq Require Import Lia.
 Import ListNotations.
 Open Scope Z_scope.
 
@@ -48,6 +49,31 @@ Theorem C08_skip_cyclic : forall T nxt r,
   timer_calc (mkTimer CYCLIC (TCyclic T) nxt true) (Some r) = Ok (mkTimer CYCLIC (TCyclic T) (dt_add r T) true).
 Proof. exact timer_cyclic_skip. Qed.
 
+(* job level, cyclic: whenever the job's timer is not in the future at the execution instant r
+   (always the case when a delay=True job is invoked by a non-forced poll) the next due time is
+   exactly r + interval.  This is the PARTIAL form of the property's parenthetical claim: *)
+Theorem C08_skip_cyclic_job_partial : forall j T nxt r,
+  job_ok j -> c_type (j_cfg j) = CYCLIC -> c_skip (j_cfg j) = true ->
+  j_timers j = [mkTimer CYCLIC (TCyclic T) nxt true] -> aware r = tz_aware (j_tz j) ->
+  utc nxt <= utc r -> 0 < j_attempts j ->
+  exists j', job_calc j r = Ok j' /\ utc (job_datetime j') = utc r + T.
+Proof. exact cyclic_skip_job. Qed.
+(* ... the full claim ("for cyclic jobs it is exactly t + interval" after EVERY invocation) is
+   false for the deprecated delay=False option: the first invocation consumes `start` while the
+   timer already stands at start + T, which is left alone if it is still ahead of t.
+   Known finding C08/cyclic-skip-nodelay, replayed on the implementation by the check. *)
+Theorem C08_skip_cyclic_nodelay_refuted :
+  exists c now r j j',
+    c_type c = CYCLIC /\ c_skip c = true /\ c_delay c = false /\
+    job_create c None now = Ok j /\ utc (job_datetime j) <= utc r /\
+    job_cycle j (false, r) = Ok j' /\ utc (job_datetime j') <> utc r + 10.
+Proof.
+  exists (mkCfg CYCLIC [TCyclic 10] 0 [] false (Some (mkDt 1000 None)) None true 1 1 [] [] []), 1000, (mkDt 1003 None).
+  eexists. eexists. split; [reflexivity|]. split; [reflexivity|]. split; [reflexivity|].
+  split; [vm_compute; reflexivity|]. split; [vm_compute; discriminate|]. split; [vm_compute; reflexivity|].
+  vm_compute. discriminate.
+Qed.
+
 (* the job level (single and batched): with skip_missing every timer that is not in the future
    is re-based, the others are untouched, and the job stays well formed (never raises) *)
 Theorem C08_job_calc_total : forall j ref,
@@ -76,3 +102,5 @@ Print Assumptions C08_no_skip_cyclic.
 Print Assumptions C08_skip_clock.
 Print Assumptions C08_skip_cyclic.
 Print Assumptions C08_job_calc_total.
+Print Assumptions C08_skip_cyclic_job_partial.
+Print Assumptions C08_skip_cyclic_nodelay_refuted.
